@@ -129,6 +129,10 @@ def derived_representations(ctx, kind, n):
     one = ctx.const(np.identity(n))
     words = ["", "a", "b", "A", "B"] + ["".join(w) for w in itertools.product("abAB", repeat=2)]
     inv = np.linalg.inv
+    # history: the original representation has been used (every word evaluated) before the derived one is created; the derived
+    # representation must not depend on that
+    for w in words:
+        ctx.ensure_eq(f'original_word_{w or "empty"}', rep[w], spec_image(mats, w, one), tol=1e-6)
     if kind == "copy":
         new, F = Representation(rep), (lambda M: M)
     elif kind == "conjugate":
